@@ -183,6 +183,20 @@ CHECKS = {
     note='listeners are modelled as scripts (values handed to the setter, in order), one listener per event kind; delivery to '
          'several listeners is C20.',
     technique='Coq proof (LR certificate + nested structural induction with event traces; label lemmas of C19) + generated tables + correspondence'),
+ 'C01': dict(
+    text='Coq theorems: every step of the real LR driver over the generated tables strictly decreases a potential bounded by '
+         '8*tokens+3, for every host, stack and input (certificate on the tables: no empty production, unit reductions lower '
+         'the potential), so the driver stops by itself; the lexer consumes input at every step; for every host and every text '
+         'the record is well formed (result never an error object; errors are the nine codes); the generated from_message table '
+         'is closed over the nine spellings with #ERROR! as default; the shape of Parser.parse (catch-all -> from_message, no '
+         're-raise, error result moved, two keys) is generated from the source (fail-closed ast translator). Tied to the code '
+         'by token soups, every registered function at arity 0..4 over a 47-value pool under a time limit, and raising / '
+         'hostile callbacks.',
+    design='7/C01',
+    note='partial: termination and record shape of the ~130 built-in bodies outside the model are observed (sweep with a 4 s '
+         'limit), not proved; bignum work growing with the magnitude of an integer argument (FACT, POWER, 10**digits, PV) is '
+         'exercised with magnitudes <= 1e5; ply error recovery on a SyntaxError raised by a host callback is not modelled.',
+    technique='Coq proof (potential function certified by vm_compute on the generated LR tables, strong induction on fuel) + ast translator for the wrapper + sweep'),
 }
 PENDING = {}
 def main():
